@@ -11,8 +11,8 @@ Request 1 (T-step):  `<slots> | <op> <op> …`
     `dref` drop the owner / one handle · `fin:<k>:<v>` finish the direct owner through the k-th public finisher
     (0 drop, 1 `Instrumented::emit`, 2 `discard_metrics`, 3 `into_parts`, 4 `split_metrics_to`, 5–7 `instrument` /
     `on_success` / `on_error` / `finalize_metrics` / `instrument_async` writing `plain := v`, then `emit`) ·
-    `ctor:<k>` (first op only) which constructor built the owner · `env:<e>:<w>` (before the first real op) where
-    drops / polls run — identity in the model · `dfg` drop a free flush guard · `ddg` drop a force-flush guard ·
+    `ctor:<k>` (first op only) which constructor built the owner · `env:<e>:<w>[:<p>]` (before the first real op) where
+    drops / polls run and whether drops happen by a contained unwinding panic — identity in the model · `dfg` drop a free flush guard · `ddg` drop a force-flush guard ·
     `open:<i>:<w|d>:<v0>` (`w` consumes a free flush guard) · `delay:<i>` (`delay_flush`, consumes a free
     flush guard) · `wb:<i>` first poll of `wait_for_data` · `wp` poll again · `wc` drop the future ·
     `gm:<i>:<v>` mutate through the slot guard · `gd:<i>` drop the slot guard · `gc:<i>` `parent_is_closed()`
@@ -86,6 +86,12 @@ def macroOp (s : St) (f : List String) : Option (St × String) :=
     match e.toNat?, w.toNat? with
     | some e, some w => if e < 6 && w < 4 && s == init s.slots then some (s, "-") else none
     | _, _ => none
+  -- fourth field: HOW the drop operations release their object — plain drop, or because the owning scope / thread /
+  -- tokio task panics and unwinds.  A drop during unwinding is a drop: identity as well.
+  | ["env", e, w, p] =>
+    match e.toNat?, w.toNat?, p.toNat? with
+    | some e, some w, some p => if e < 6 && w < 4 && p < 4 && s == init s.slots then some (s, "-") else none
+    | _, _, _ => none
   -- `append_on_drop` and `append_and_close` build the same initial state
   | ["ctor", k] =>
     match k.toNat? with
